@@ -7,7 +7,7 @@
    injectivity in every argument — is a lemma here.  That the real
    HKDF-SHA256 behaves like this free term (distinct inputs give distinct keys
    except with negligible probability) is the cryptographic assumption of the
-   development (DESIGN.md §7).  Nothing here is an Axiom. *)
+   development (DESIGN.md §7).  Nothing here is axiomatised. *)
 From Coq Require Import List NArith Bool.
 From Cedar Require Import Lib.Bytes.
 Import ListNotations.
